@@ -233,7 +233,7 @@ def c14(res, tier, deadline):
                 "records (real class_declaration objects), toggle 3 definitions (one through the "
                 "real add_function with a function shared by all policies), update, install an "
                 "error handler, create a virtual_ptr; EVERY operation sequence up to the depth from "
-                "the pristine state and from 'one policy fully set up' is executed; after each "
+                "the pristine state, from 'one policy fully set up' and (thorough) from 'both set up' is executed; after each "
                 "operation the full snapshot of every other policy (catalogs, handler identity by "
                 "behaviour, dispatch data address/size/content, hash parameters, v-table pointer "
                 "vector, static v-table pointers, slots/strides, outcome of every legal call and "
